@@ -340,3 +340,34 @@ Proof.
     + rewrite forallb_forall in H. specialize (H _ Hin). unfold wb_body in H. simpl in H.
       apply andb_true_iff in H. destruct H as [_ H]. apply is_nil_true. exact H.
 Qed.
+
+(* ---------- the executable semantics agrees with the relation ---------- *)
+
+Lemma exec_step_sound p c i c' : exec_step p c i = Some c' -> step p c i c'.
+Proof.
+  unfold exec_step. intros H.
+  destruct (nth_error (threads c) i) as [t|] eqn:Hi; [|discriminate].
+  destruct t as [|[g L todo] st]; [discriminate|].
+  destruct todo as [|o t].
+  - inversion H; subst. eapply step_ret; eauto.
+  - destruct o.
+    + destruct (owner c l) eqn:Ho; [discriminate|]. inversion H; subst. eapply step_acq; eauto.
+    + destruct (owner c l) as [j|] eqn:Ho; [|discriminate].
+      destruct (Nat.eqb j i) eqn:Hj; [|discriminate]. apply Nat.eqb_eq in Hj. subst j.
+      inversion H; subst. eapply step_rel; eauto.
+    + inversion H; subst. eapply step_rd; eauto.
+    + inversion H; subst. eapply step_wr; eauto.
+    + inversion H; subst. eapply step_call; eauto.
+    + inversion H; subst. eapply step_spawn; eauto.
+Qed.
+
+Lemma run_reach p c0 : forall sched c c', reach p c0 c -> run p c sched = Some c' -> reach p c0 c'.
+Proof.
+  induction sched as [|i r IH]; intros c c' Hr H; simpl in H.
+  - inversion H; subst. exact Hr.
+  - destruct (exec_step p c i) as [c1|] eqn:He; [|discriminate].
+    eapply IH; [|exact H]. eapply reach_step; [exact Hr|]. apply exec_step_sound. exact He.
+Qed.
+
+Lemma run_reach_init p ts sched c' : run p (init p ts) sched = Some c' -> reach p (init p ts) c'.
+Proof. apply run_reach. apply reach_refl. Qed.
